@@ -30,9 +30,13 @@ func (fc *FnCtx) doCall(st *State, c *ssa.CallCommon, in ssa.Instruction, site s
 		resTypes = append(resTypes, sig.Results().At(i).Type())
 	}
 	if c.IsInvoke() {
+		fc.callOrder(st, c, site)
 		return fc.invoke(st, c, in, site, resTypes)
 	}
 	callee := c.StaticCallee()
+	if callee == nil || !strings.HasPrefix(fullName(callee), "sync.") {
+		fc.callOrder(st, c, site)
+	}
 	var args []Val
 	var fv *FnVal
 	if callee == nil {
@@ -551,9 +555,15 @@ func (fc *FnCtx) lockOp(st *State, op string, arg Val, site string) {
 	if top.held == nil {
 		top.held = map[string]bool{}
 	}
-	hv := HeapVar{"$held." + name, SBool, HGhost}
+	hv := heldVar(name)
+	if op == "RLock" || op == "RUnlock" {
+		hv = rheldVar(name)
+	}
 	switch op {
 	case "Lock", "RLock":
+		if m != nil {
+			fc.lockOrder(st, m.Level, op+" "+name, site)
+		}
 		top.held[name] = true
 		st.Heap[hv.Name] = TTrue
 		if m != nil {
@@ -565,8 +575,18 @@ func (fc *FnCtx) lockOp(st *State, op string, arg Val, site string) {
 	case "Unlock", "RUnlock":
 		if m != nil {
 			selfTy := types.NewPointer(arg.P.St)
-			inv := fc.monitorInv(st, m, arg.P.Ref, selfTy)
-			fc.oblige(st, "monitor-inv", name, site, inv, "invariant of "+name+" re-established at "+op+": "+m.InvSrc)
+			env := fc.specEnv(st)
+			env.PkgPath = m.PkgPath
+			env.Vars = map[string]TVal{m.Self: {T: arg.P.Ref, Ty: selfTy}}
+			env.Macros = map[string]SExpr{}
+			parts := fc.evalClauseParts(env, &Clause{Label: name, Expr: m.Inv, Src: m.InvSrc, Pos: "monitor " + name})
+			for i, t := range parts {
+				lab := name
+				if len(parts) > 1 {
+					lab = fmt.Sprintf("%s/%d", name, i+1)
+				}
+				fc.oblige(st, "monitor-inv", lab, site, t, fmt.Sprintf("invariant of %s re-established at %s (conjunct %d of %s)", name, op, i+1, m.InvSrc))
+			}
 		}
 		delete(top.held, name)
 		st.Heap[hv.Name] = TFalse
